@@ -23,7 +23,7 @@ def main():
     shutil.copy(os.path.join(src, "demo.py"), os.path.join(dst, "demo.py"))
     out = {"id": sid, "property": meta["property"], "change": meta["change"], "needs_to_manifest": meta["needs_to_manifest"],
            "source": source,
-           "confirmed": {"applies_to": "repo HEAD 42302bc (13 fix: commits)", "existing_tests": res["tests"],
+           "confirmed": {"applies_to": "repo HEAD e78337a (14 fix: commits)", "existing_tests": res["tests"],
                          "demo": "exit 0 on the clean tree, exit 1 with the change",
                          "command": "tools/try_mutant.py <worktree> patch.diff demo.py %s" % meta["property"]}}
     json.dump(out, open(os.path.join(dst, "meta.json"), "w"), indent=1)
